@@ -282,15 +282,9 @@ func (r *replicator) processHash(ctx context.Context, item processItem) ([]cid.C
 	cprogress := make(chan iface.IPFSLogEntry)
 	defer close(cprogress)
 	go func() {
-		var entry iface.IPFSLogEntry
-		for {
-
-			select {
-			case <-ctx.Done():
-				return
-			case entry = <-cprogress:
-			}
-
+		// keep reading until the channel is closed, even if the request was
+		// cancelled: the fetcher blocks while nobody receives its progress
+		for entry := range cprogress {
 			if entry == nil {
 				return
 			}
